@@ -127,6 +127,10 @@ type layer2 struct {
 	restEntry int
 	// sqlx: the SqlConn objects of the run were built with WithAcceptable(duplicate key)
 	sqlAcceptDup bool
+	// zrpc: 0 the harness creates the breakers of the interceptors' names before the first call;
+	// 1 none of them: they come into being with the first intercepted calls, made by several
+	// tasks (firstuse_test.go); 2 the first identity up front, the second by first use
+	lazyMode int
 }
 
 // l2fix turns a plan drawn for the direct mode into a plan of the wrapper: entry point, identity,
@@ -288,11 +292,8 @@ func (l *layer2) setupRPC() bool {
 		i, id := i, id
 		// the interceptors take their breaker from the name registry: the server by the full
 		// method, the client by target + method
-		id.w = l.newWorld(func(try int) bool {
+		naming := func() {
 			if sameMethod && i == 1 {
-				if try > 0 {
-					return false // the name is fixed and its breaker already exists
-				}
 				id.fullMethod = l.ids[0].fullMethod
 			} else {
 				l2Counter++
@@ -304,6 +305,20 @@ func (l *layer2) setupRPC() bool {
 				id.name = path.Join(id.cc.Target(), id.fullMethod)
 				id.desc = "client of " + id.cc.Target() + " method " + id.fullMethod
 			}
+		}
+		if l.lazyMode == 1 || (l.lazyMode == 2 && i == len(l.ids)-1) {
+			// nobody looks the name up before the first intercepted calls
+			naming()
+			id.desc += " (breaker created by the first calls)"
+			id.w = &world{r: r, byName: true, name: id.name}
+			r.Probe("first-use-rpc-interceptor")
+			continue
+		}
+		id.w = l.newWorld(func(try int) bool {
+			if sameMethod && i == 1 && try > 0 {
+				return false // the name is fixed and its breaker already exists
+			}
+			naming()
 			id.brk = breaker.GetBreaker(id.name)
 			return true
 		})
@@ -331,6 +346,7 @@ func (w *world) reqBegin(c *callRec) {
 	r, p := w.r, c.p
 	c.reqRuns++
 	st := w.stamp()
+	w.observe(st)
 	if c.reqRuns == 1 {
 		c.reqStart = st
 		if !c.decSet {
@@ -583,6 +599,7 @@ func (l *layer2) call(p *plan) *callRec {
 		}
 	}()
 	c.ret = w.stamp()
+	w.observe(c.ret)
 	c.returned = true
 	w.inflight--
 	delete(w.cur, tid)
@@ -735,7 +752,10 @@ func bodyLayer2(r *simrt.Run, tier string) {
 	t := r.Tape
 	l := &layer2{r: r}
 	l.kind = wrapREST + t.Intn(5)
-	phases := drawPhases(t, tier, false)
+	if l.kind == wrapRPCServer || l.kind == wrapRPCClient {
+		l.lazyMode = t.Intn(3)
+	}
+	phases := drawPhases(t, tier, false, l.lazyMode > 0)
 	if off := t.Intn(4); off > 0 {
 		r.Sleep(time.Duration(t.Range(1, 999_999_999)))
 	}
@@ -815,6 +835,17 @@ func bodyLayer2(r *simrt.Run, tier string) {
 		total += n
 		descr = append(descr, fmt.Sprintf("%s(gap=%v clients=%d calls=%d fail%%=%d think-profile=%d focus-identity=%d failure-kind=%d/%d panics-only=%v backend-unreachable=%v)", phaseNames[ph.kind], ph.gap, len(ph.plans), n, ph.failPct, ph.profile, ph.ident, ph.variant, ph.valKind, ph.panicsOnly, ph.outage))
 	}
+	var lws []*world
+	if l.lazyMode > 0 {
+		// every identity is called by several clients at the start of the first phase: the
+		// first lookups of a name that does not exist yet are concurrent
+		var idx []int
+		for k, id := range l.ids {
+			idx = append(idx, k)
+			lws = append(lws, id.w)
+		}
+		addFirstUse(t, phases[0], idx)
+	}
 	var idd []string
 	for _, id := range l.ids {
 		idd = append(idd, id.desc)
@@ -856,6 +887,10 @@ func bodyLayer2(r *simrt.Run, tier string) {
 				}
 			}
 		} else {
+			firstUse := pi == 0 && l.lazyMode > 0
+			if firstUse {
+				beginFirstUse(lws)
+			}
 			var tasks []*simrt.Task
 			for ci := range ph.plans {
 				ps := ph.plans[ci]
@@ -874,6 +909,13 @@ func bodyLayer2(r *simrt.Run, tier string) {
 				return
 			}
 			r.Probe("concurrent-phase")
+			if firstUse {
+				resolveFirstUse(r, lws)
+				for _, id := range l.ids {
+					id.brk = id.w.b
+				}
+				r.Probe("first-use-" + wrapNames[l.kind])
+			}
 			settleAll(fmt.Sprintf("after concurrent phase %d", pi))
 		}
 		if r.Failed() {
